@@ -39,7 +39,13 @@ Class(on, od, ba, sk, fl, cd, optin) ==
       \o (IF fl # {} THEN << <<"flags", fl>> >> ELSE <<>>)
       \o (IF cd # <<>> THEN << <<"dialect", cd>> >> ELSE <<>>) >>
 
-Classes == { Class(on, od, ba, sk, fl, cd, oi) : on \in Tri, od \in Tri, ba \in Tri, sk \in BOOLEAN,
+\* omit_default must compare with the default VALUE whatever it is: a tuple default holding non-literal objects
+TupClass(od) == <<"dc", "C", << <<"t", <<"vtuple", <<"text", "posixpath">> >>, <<"val", <<"tuple", << <<"text", "posixpath", "/abs/q">> >> >> >>, <<>> >>,
+                                <<"k", <<"int">>, <<"val", I(1)>>, <<>> >> >>,
+                  OptIf("omit_default", od)>>
+TupInstances == { <<"obj", "C", << <<"tuple", << <<"text", "posixpath", "/abs/q">> >> >>, I(1)>> >>,
+                  <<"obj", "C", << <<"tuple", << <<"text", "posixpath", "rel/p">> >> >>, I(2)>> >> }
+Classes == { TupClass(od) : od \in Tri } \cup { Class(on, od, ba, sk, fl, cd, oi) : on \in Tri, od \in Tri, ba \in Tri, sk \in BOOLEAN,
                                                   fl \in SUBSET AllFlags, cd \in CfgDialects, oi \in BOOLEAN }
 
 Instances == { <<"obj", "C", <<None, I(5), S("s"), S("dw"), <<"obj", "N", <<None, I(1)>> >>, I(0)>> >>,
@@ -56,7 +62,7 @@ CxOf(c) == [DefaultCx EXCEPT !.omit_none = c[1], !.by_alias = c[2], !.dlct = c[3
 
 Init == T = <<"start">> /\ v = <<"nov">> /\ kind = "start" /\ call = <<"unset", "unset", <<>> >>
 Next == \/ kind = "start" /\ T' \in Classes /\ v' = v /\ kind' = "type" /\ call' = call
-        \/ kind = "type" /\ T' = T /\ v' \in Instances /\ call' \in Calls(T) /\ kind' = "value"
+        \/ kind = "type" /\ T' = T /\ v' \in (IF Len(DcFields(T)) = 2 THEN TupInstances ELSE Instances) /\ call' \in Calls(T) /\ kind' = "value"
 
 Wire == Pack(T, CxOf(call), v)
 \* the plain serialization: same class without options
@@ -71,7 +77,7 @@ NameOf(k) == LET fs == DcFields(T) IN
              ELSE FName(fs[CHOOSE i \in DOMAIN fs : FAlias(T, fs[i]) = k])
 Plain == Pack(PlainT, DefaultCx, v)
 ProjectionOnly ==
-  kind = "value" =>
+  (kind = "value" /\ Len(DcFields(T)) > 2) =>
     /\ \A i \in DOMAIN Wire[2] :
          LET k == Wire[2][i][1][2] n == NameOf(k) IN
          /\ PairsHas(Plain[2], S(n))
